@@ -105,7 +105,7 @@ struct SimConfig {
   int      thp_einval = 0;
   int      entropy_fail = 0;     // 1: getrandom ENOSYS and /dev/urandom unavailable
   bool     trace = false;
-  double   wall_limit_s = 60.0;
+  double   wall_limit_s = 30.0;
 };
 
 // ---------------------------------------------------------------------------------
@@ -130,6 +130,7 @@ int      sched_spawn(vthread_main_t fn, void* arg, bool reuse_id);   // returns 
 void     sched_join(int vt_index);                                   // blocks until DONE
 bool     sched_is_done(int vt_index);
 void     sched_barrier(int barrier_id, int parties);                 // blocks until `parties` vthreads arrived
+void     sched_os_point(int kind);                                   // preemption point right before a simulated OS call takes effect
 void     sched_harness_point(int what);                              // preemption point between API calls
 void     sched_call_begin();                                         // reset the per-call step budget
 void     sched_set_passthrough(bool on);                             // harness-internal mimalloc calls (queries) without scheduling
